@@ -520,6 +520,11 @@ class FieldValueComponentFloat(FieldValueComponentNumber):
         validator=attr.validators.instance_of(float)
     )
 
+    def __attrs_post_init__(self):
+        if self.value != self.value or self.value in (float('inf'), float('-inf')):
+            # not a number / out of the float range: neither has a JSON form
+            raise InvalidValue(self.value, type(self), 'value')
+
     @classmethod
     @abc.abstractmethod
     def get_canonical_name(cls):
